@@ -41,7 +41,7 @@ Inner(kind) ==
     [] kind = "privclass" -> << N("class", "_PInner", {}, << Method("inst") >>) >>
     [] kind = "enum" -> << EnumN("NestedE", 2) >>
 
-Supers == {"none", "one", "two", "aliased"}
+Supers == {"none", "one", "two", "aliased", "subscripted"}     \* subscripted: class Cls(GenBase[int])
 ClassN(name, ctor, cattr, mkinds, inner, sup) ==
   [ N("class", name, {}, (IF cattr THEN << ClassAttr >> ELSE <<>>) \o (IF ctor THEN << Ctor >> ELSE <<>>)
                           \o mkinds \o Inner(inner)) EXCEPT !.flags = { "super-" \o sup } ]
@@ -55,6 +55,7 @@ Classes(tier) ==
   { ClassN(nm, ct, ca, ms, inn, sup) :
       nm \in {"Cls", "_PrivCls"}, ct \in BOOLEAN, ca \in BOOLEAN, ms \in MethodSeqs(tier),
       inn \in (IF tier = "quick" THEN {"none", "class2", "enum"} ELSE InnerKinds), sup \in (IF tier = "quick" THEN {"none", "two", "aliased"} ELSE Supers) }
+  \cup { ClassN("Cls", ct, TRUE, << Method("inst") >>, "none", "subscripted") : ct \in BOOLEAN }
 Funcs == { N("func", "fun", {}, << Param("a"), Param("b"), Res >>), N("func", "_pfun", {}, << Param("a") >>), N("func", "noargs", {}, <<>>),
            N("func", "movl", {"overload"}, << Param("a"), Res >>), N("func", "mdovl", {"overload", "deco"}, << Param("a"), Res >>) }
 (* the other enum classes of the standard library: the flag names the base class the enum derives from *)
@@ -149,7 +150,7 @@ JudgeWalk(m, obs) ==
                                         ELSE IF d > Len(got) THEN "missing-event:" \o exp[d][1] \o "-" \o exp[d][2]
                                         ELSE "expected-" \o exp[d][1] \o "-" \o exp[d][2] \o ":got-" \o got[d][1] \o "-" \o got[d][2]),
              expected |-> ToString(exp), observed |-> ToString(got)] }
-ExpSupers(sup) == CASE sup = "none" -> <<>> [] sup = "one" -> <<"basemod.BaseA">> [] sup = "two" -> <<"basemod.BaseA", "basemod.BaseB">> [] sup = "aliased" -> <<"basemod.BaseA">>
+ExpSupers(sup) == CASE sup = "none" -> <<>> [] sup = "one" -> <<"basemod.BaseA">> [] sup = "two" -> <<"basemod.BaseA", "basemod.BaseB">> [] sup = "aliased" -> <<"basemod.BaseA">> [] sup = "subscripted" -> <<"basemod.GenBase">>
 (* obs = [mid, entries: Seq [kind, id, name, refs: Seq ids, flags: Seq], sorted: BOOLEAN, dups: Seq ids, schema: Nat, valid: BOOLEAN] *)
 Judge(m, obs) ==
   LET E == ToSet(obs.entries)
